@@ -692,9 +692,14 @@ def name_reuse(rec):
             ga, gb = ra[1], rb[1]
             calls = [(g, e, t) for g, es in ((ga, (None, 'Item', 'Word', 'Pt')), (gb, (None, 'Item', 'start', 'Word', 'Pt'))) for e in es for t in texts]
             before = [outcome(g, (e, t, 0, True)) for g, e, t in calls]
-            steps = [('base name re-used', REUSE_OTHER.format(A=a)),
+            steps = [('grammar named like a rule of the base', 'grammar %s.Item\nstart = "o"*\n' % a),
+                     ('grammar named like a class of the base', 'grammar %s.Pt\nstart = "o"*\n' % a),
+                     ('grammar named like an inherited rule of the extension', 'grammar %s.Word\nstart = "o"*\n' % b),
+                     ('base name re-used', REUSE_OTHER.format(A=a)),
                      ('extension name re-used', 'grammar %s\nstart = "q"*\nItem = "q"\n' % b),
                      ('base name re-used by an extension of the old extension name', 'grammar %s extends %s\nItem = "z"\n' % (a, b))]
+            # (the first three: grammars whose dotted name is <existing grammar>.<one of its rules / classes>
+            # -- the new module must not take the place of that rule in the existing module)
             for what, d in steps:
                 r = observe.compile_grammar(d)
                 rec.count('names_reused')
@@ -708,7 +713,7 @@ def name_reuse(rec):
                                       dict(kind='c18', mode='name-reuse', dotted=dotted, step=what, module='extension' if g is gb else 'base',
                                            entry=e, text_repr=repr(t)), want, got)
         finally:
-            for n in (a, b, a.rsplit('.', 1)[0]):
+            for n in (a, b, a.rsplit('.', 1)[0], a + '.Item', a + '.Pt', b + '.Word'):
                 sys.modules.pop(n, None)
 
 
